@@ -1,0 +1,38 @@
+//go:build verif && !binary_log
+
+package zerolog
+
+// Contracts that are specific to the JSON build (default). Comment-only.
+//
+// Ghost vocabulary: every []byte has mode(b) (grammar position at its end),
+// stk(b) (open containers) and lex(b) (string lexer state), advanced by the
+// verifier at every append by running a byte-level JSON automaton.
+
+//@ spec objbuf(b bytes) bool = len(b) >= 1 && lex(b) == 0 && (mode(b) == OBJ_FIRST || mode(b) == OBJ_NEXT) && ((mode(b) == OBJ_FIRST) == (b[len(b)-1] == '{'))
+//@ spec valueok(b bytes) bool = lex(b) == 0 && valuepos(mode(b))
+//@ spec emitsvalue(res bytes, dst bytes) bool = lex(res) == 0 && mode(res) == aftervalue(mode(dst)) && stk(res) == stk(dst) && len(res) > len(dst) && res[len(res)-1] != '{' && prefix(res, dst)
+//@ spec wholevalue(b bytes) bool = lex(b) == 0 && mode(b) == DONE && stk(b) == 1 && len(b) >= 1 && b[len(b)-1] != '{'
+//@ spec instring(res bytes, dst bytes) bool = lex(res) == 1 && mode(res) == mode(dst) && stk(res) == stk(dst) && prefix(res, dst) && len(res) >= len(dst)
+//@ spec firstbyte(b bytes) bool = b[0] == '{'
+
+// ---------------------------------------------------------------------------
+// encoder_json.go
+
+//@ func appendJSON(dst, j) res
+//@   props C01 C02
+//@   arith int
+//@   flag tags !binary_log
+//@   requires valueok(dst) && wholevalue(j)
+//@   ensures emitsvalue(res, dst)
+
+//@ func appendCBOR(dst, cbor) res
+//@   props C01 C02
+//@   arith int
+//@   flag tags !binary_log
+//@   flag noovf
+//@   flag assumepost base64.StdEncoding.Encode writes exactly EncodedLen(len(cbor)) alphabet bytes over the placeholder dots, so the result is the quoted data URL (trusted library step)
+//@   requires valueok(dst)
+//@   ensures emitsvalue(res, dst)
+//@   loop 1:
+//@     invariant 0 <= i && len(dst) == len(dst0) + 30 + i
+
